@@ -11,7 +11,7 @@ use crate::util::*;
 use serde_json::{json, Value};
 use std::sync::Arc;
 use surf_n_term::view::{
-    Align, Axis, BoxConstraint, Container, Dynamic, Either, Flex, Frame, Justify, Layout, Margins, ScrollBar, ScrollBarPosition, Tag, Text, Tree, View, ViewContext,
+    Align, Axis, BoxConstraint, Container, Dynamic, Either, Flex, FlexChild, FlexRef, Frame, Justify, Layout, Margins, ScrollBar, ScrollBarPosition, Tag, Text, Tree, View, ViewContext,
     ViewDeserializer, ViewLayout, ViewLayoutStore, ViewMutLayout,
 };
 use surf_n_term::*;
@@ -119,7 +119,50 @@ fn build(d: &Value) -> Box<dyn View> {
                 "space-evenly" => Justify::SpaceEvenly,
                 _ => Justify::Start,
             });
-            for c in d["children"].as_array().map(|a| a.as_slice()).unwrap_or(&[]) {
+            let kids = d["children"].as_array().map(|a| a.as_slice()).unwrap_or(&[]);
+            // the statically typed flex (FlexRef over a Vec, an array or a tuple of children) shares the layout code but has
+            // its own child containers; `"ref": 1..3` selects one of them (positive flex factors only: Flex drops the others)
+            let refkind = d.get("ref").and_then(|r| r.as_u64()).unwrap_or(0);
+            let positive = kids.iter().all(|c| c.get("flex").and_then(|x| x.as_f64()).map(|x| x > 0.0).unwrap_or(true));
+            if refkind > 0 && positive && kids.len() <= 3 {
+                let axis = axis_of(d.get("direction"));
+                let justify = match d.get("justify").and_then(|j| j.as_str()).unwrap_or("start") {
+                    "center" => Justify::Center,
+                    "end" => Justify::End,
+                    "space-between" => Justify::SpaceBetween,
+                    "space-around" => Justify::SpaceAround,
+                    "space-evenly" => Justify::SpaceEvenly,
+                    _ => Justify::Start,
+                };
+                let mut cs: Vec<FlexChild<Box<dyn View>>> = kids
+                    .iter()
+                    .map(|c| {
+                        if c.get("type").is_some() {
+                            FlexChild::new(build(c)).align(Align::default())
+                        } else {
+                            let mut fc = FlexChild::new(build(&c["view"])).align(c.get("align").map(align_of).unwrap_or_default());
+                            if let Some(x) = c.get("flex").and_then(|x| x.as_f64()) {
+                                fc = fc.flex(x);
+                            }
+                            if let Some(face) = face_of(c.get("face")) {
+                                fc = fc.face(face);
+                            }
+                            fc
+                        }
+                    })
+                    .collect();
+                return match (refkind, cs.len()) {
+                    (1, _) => FlexRef::new(cs).direction(axis).justify(justify).boxed(),
+                    (2, 1) => { let a = cs.remove(0); FlexRef::new([a]).direction(axis).justify(justify).boxed() }
+                    (2, 2) => { let b = cs.remove(1); let a = cs.remove(0); FlexRef::new([a, b]).direction(axis).justify(justify).boxed() }
+                    (2, 3) => { let c = cs.remove(2); let b = cs.remove(1); let a = cs.remove(0); FlexRef::new([a, b, c]).direction(axis).justify(justify).boxed() }
+                    (_, 1) => { let a = cs.remove(0); FlexRef::new((a,)).direction(axis).justify(justify).boxed() }
+                    (_, 2) => { let b = cs.remove(1); let a = cs.remove(0); FlexRef::new((a, b)).direction(axis).justify(justify).boxed() }
+                    (_, 3) => { let c = cs.remove(2); let b = cs.remove(1); let a = cs.remove(0); FlexRef::new((a, b, c)).direction(axis).justify(justify).boxed() }
+                    _ => FlexRef::new(cs).direction(axis).justify(justify).boxed(),
+                };
+            }
+            for c in kids {
                 if c.get("type").is_some() {
                     // the JSON form gives such a child the default alignment
                     f.push_child_ext(build(c), None, None, Align::default());
@@ -428,7 +471,11 @@ impl TreeGen<'_> {
                     }
                 }
                 let justify = *self.rnd.pick(&["start", "center", "end", "space-between", "space-around", "space-evenly"][..]);
-                json!({"type": "flex", "direction": if self.rnd.chance(1, 2) { "vertical" } else { "horizontal" }, "justify": justify, "children": kids})
+                let mut f = json!({"type": "flex", "direction": if self.rnd.chance(1, 2) { "vertical" } else { "horizontal" }, "justify": justify, "children": kids});
+                if !self.json_only && self.rnd.chance(1, 3) {
+                    f["ref"] = json!(1 + self.rnd.below(3));
+                }
+                f
             }
             "container" => {
                 let mut c = json!({"type": "container", "child": self.tree(depth - 1), "vertical": self.align(), "horizontal": self.align()});
